@@ -172,6 +172,12 @@ def obligations(tier):
                       bounds=bounds + '; Version and line counts are unconstrained symbolic ints',
                       claim='every returned text is a stored one and satisfies every given Ref / Version / Lang / TextWidth / '
                             'NumberOfLines constraint; without constraints exactly the texts of the highest stored version'))
+    obs.append(Ob('C20.loc.history', 'harness.C20', 'loc_history', timeout=t, functions=F_LOC + [
+                      'sdc11073.provider.porttypes.localizationservice.LocalizationStorage.add'], stubs=[],
+                  bounds='storage filled in two steps (1..2 texts, then 1..2 more) with 0..2 unconstrained queries in between; Versions '
+                         'symbolic ints',
+                  claim='the unconstrained answer after the second add is exactly the texts of the highest Version over everything '
+                        'stored - independent of queries served before'))
     rb = {'r0': 0, 'r1': 1, 'r2': 1, 'r3': 0}
     obs.append(Ob('C20.loc.languages', 'harness.C20', 'loc_languages', bind={'allow_none': False, **rb}, timeout=t, functions=F_LOC,
                   bounds='0..4 stored texts, Lang each any of 3 languages, Refs a,b,b,a; concrete (selector enumeration)',
